@@ -5,6 +5,9 @@
                       constants; the folded results are captured by a `cohdl.pyeval` probe.  A rejected
                       design is bisected so that the rejecting points are identified  -> {i: result | Rej}
 
+  Design(src)         level S/R: compile the Entity `Top` of a generated module, analyse the emitted VHDL with
+                      cv.vhdl; .status ok|rejected|blocked|blocked_by_static; .run(pokes, outs) simulates
+
 `fn` must be a function cohdl can trace (its source must be retrievable: define it in a module created
 with cv.harness.loader.load_module or in a real file).
 """
@@ -128,3 +131,67 @@ def evaluate(lvl, fn_p, n, fn_t_factory, max_bad_probes=4):
         for i in bad[max_bad_probes:]:
             out[i] = Rej("not_probed")
     return [out[i] for i in range(n)]
+
+
+# ----------------------------------------------------------------------------- simulated level
+class Design:
+    """compiled + analysed design; .status in ok | rejected | blocked | blocked_by_static"""
+
+    def __init__(self, src, top="Top"):
+        from cv.harness import loader
+        from cv.vhdl.analyze import analyse
+
+        self.status, self.why, self.result, self.d = "ok", None, {}, None
+        mod = None
+        try:
+            try:
+                import contextlib
+                import io
+
+                with contextlib.redirect_stdout(io.StringIO()), contextlib.redirect_stderr(io.StringIO()):
+                    mod = loader.load_module(src)
+            except (KeyboardInterrupt, SystemExit, RecursionError, MemoryError):
+                raise
+            except Exception as e:  # noqa: BLE001
+                self.status, self.why = "rejected", type(e).__name__
+                return
+            try:
+                self.vhdl = loader.compile_entity(getattr(mod, top))
+            except loader.Rejected as r:
+                self.status, self.why = "rejected", r.exc_type
+                return
+            self.result = dict(getattr(mod, "RESULT", {}))
+        finally:
+            if mod is not None:
+                loader.unload_module(mod)
+        d = analyse(self.vhdl)
+        if d.unsupported:
+            self.status, self.why = "blocked", "unsupported:" + str(d.unsupported)[:40]
+        elif d.errors:
+            self.status, self.why = "blocked_by_static", d.errors[0].rule
+            self.static = [e.signature() for e in d.errors[:3]]
+        self.d = d
+        self.top = top.lower()
+
+    def run(self, pokes, outs):
+        """for each input dict in `pokes`: {out: value|None} or ('sim_error', kind)."""
+        from cv.vhdl.sim import Blocked, Sim
+        from cv.vhdl.values import SimError
+
+        res, sim = [], None
+        for pk in pokes:
+            try:
+                if sim is None:
+                    sim = Sim(self.d, top=self.top, inputs=dict(pk)) if pk else Sim(self.d, top=self.top)
+                    if pk:
+                        sim.poke(**pk)
+                else:
+                    sim.poke(**pk)
+                res.append({o: sim.get(o) for o in outs})
+            except SimError as e:
+                res.append(("sim_error", str(getattr(e, "kind", None) or (e.args[0] if e.args else "?"))))
+                sim = None  # a Sim object must be discarded after a run-time error
+            except Blocked as e:
+                res.append(("blocked", str(e)[:40]))
+                sim = None
+        return res
